@@ -1,5 +1,5 @@
 """error handling kernels (C07)."""
-from vxlib import Inst, CORE_TUS, FMT_STUBS, CTX_STUBS, CONTAINER_STUBS
+from vxlib import Inst, CORE_TUS, FMT_STUBS, CTX_STUBS, CONTAINER_STUBS, EMPTY_DECL_UNWIND
 
 TUS = [t for t in CORE_TUS if t != "blocc/executable.cpp"] + ["blocc/statement_begin.cpp"]
 QUICK = {(1, 0), (2, 0), (3, 0), (5, 0), (0, 0), (1, 1), (3, 2), (4, 2), (1, 3), (1, 4), (2, 5)}
@@ -13,4 +13,10 @@ def instances():
                             unwind=4, timeout=400, tier="quick", mem_gb=12,
                             bounds="raised kind and clause list are instance parameters (6 kinds x 6 clause lists of <= 2 clauses)",
                             inputs="whether the selected handler itself raises; whether the block is nested in another"))
+    for lo, li in ((1, 1), (1, 2), (2, 2), (2, 3), (1, 3)):
+        out.append(Inst(id="c07.run.l%d%d" % (lo, li), props=["C07", "C06", "C01"], harness="h_run.cpp", entry="c07_run", tus=CORE_TUS, defs=["VX_LO=%d" % lo, "VX_LI=%d" % li],
+                        stubs=FMT_STUBS + CTX_STUBS + CONTAINER_STUBS, unwind=6, unwindset=EMPTY_DECL_UNWIND, timeout=600, quick_also=["C06"] if (lo, li) == (1, 2) else [],
+                        tier="quick" if (lo, li) in ((1, 2), (2, 2), (1, 1)) else "thorough",
+                        bounds="real Executable::run / Statement::execute / onRuntimeError over a list of 3 statements (one with a chained successor); execution level 2; two loops on the control stack started at levels %d and %d" % (lo, li),
+                        inputs="per statement: nothing / break / continue / return / raise; a return pending at entry"))
     return out
